@@ -65,10 +65,22 @@ def run_case(case) -> tuple[str, dict] | None:
                     # second, incremental backup on top of the first; the plan applies again (call counter restarts)
                     with open(ctl, 'w') as f:
                         json.dump({'plan': case.get('plan2', case['plan']), 'container': d, 'log': log, 'calls': 0}, f)
-                    at_start = dict(truth)
-                    for k in store.raw_state(d, 'sha256')['stored']:
-                        pass
-                manager.backup_auto_folders(lambda path, prev: backup_utils.backup_container(manager, c, path, prev))
+                    if case.get('same_second'):
+                        # the second backup is taken moments after the first: its index dump gets the same modification time (at the
+                        # resolution rsync compares) as the dump of the first one; made deterministic by setting it on the temporary dump
+                        first = os.path.realpath(os.path.join(dest, 'last-backup'))
+                        mt = os.stat(os.path.join(first, 'packs.idx')).st_mtime_ns
+                        orig_dump = backup_utils._sqlite_backup
+
+                        def dump(src, dst, _o=orig_dump, _mt=mt):
+                            _o(src, dst)
+                            os.utime(dst, ns=(_mt, _mt))
+                        backup_utils._sqlite_backup = dump
+                try:
+                    manager.backup_auto_folders(lambda path, prev: backup_utils.backup_container(manager, c, path, prev))
+                finally:
+                    if n == 1 and case.get('same_second'):
+                        backup_utils._sqlite_backup = orig_dump
         except backup_utils.BackupError as e:
             return None  # the backup did not complete successfully: outside the property
         finally:
@@ -135,8 +147,25 @@ def main(tier, seed, replay=None):
     tracecheck.check_traces(ck, ck.pid, names=['add', 'pack', 'pack_clean', 'clean', 'topack', 'pack_then_clean'])
     rnd = ck.rng
     cases = []
+    cdir = os.path.join(common.VERIF, 'corpus', 'C15')
+    for fn in sorted(os.listdir(cdir)) if os.path.isdir(cdir) else []:
+        try:
+            cs = json.load(open(os.path.join(cdir, fn))).get('case')
+            if isinstance(cs, dict) and 'plan' not in cs and isinstance(cs.get('case'), dict):
+                cs = cs['case']   # replay files nest the case one level deeper
+            if isinstance(cs, dict) and 'plan' in cs:
+                cases.append(cs)   # minimised failures of earlier findings run first
+        except Exception:
+            pass
+    ck.cov['corpus_cases'] = len(cases)
     for (call, when), a in itertools.product(POSITIONS, ACTIONS):
         cases.append({'plan': [{'call': call, 'when': when, 'action': a}], 'both': (call + len(a)) % 2 == 0})
+    # incremental backups taken moments apart (finding F7): objects are packed (and cleaned) between the two index dumps
+    for a in ACTIONS[1:3] + [ACTIONS[4]]:
+        for (call, when) in [(1, 'before'), (1, 'mid'), (2, 'before')]:
+            cases.append({'plan': [{'call': 4, 'when': 'before', 'action': {'kind': 'add', 'ids': [7, 8]}}],
+                          'plan2': [{'call': call, 'when': when, 'action': a}] + ([{'call': 2, 'when': 'before', 'action': {'kind': 'clean'}}] if a['kind'] == 'pack' and not a.get('clean_per_pack') else []),
+                          'both': False, 'incremental': True, 'same_second': True})
     nrand = 30 if tier == 'quick' else 500
     for i in range(nrand):
         n = rnd.choice([2, 2, 3, 4])
@@ -151,6 +180,7 @@ def main(tier, seed, replay=None):
         case = {'plan': plan, 'both': rnd.random() < 0.5, 'target': rnd.choice([100, 400, 10 ** 9])}
         if tier == 'thorough' or i % 5 == 0:
             case['incremental'] = True
+            case['same_second'] = rnd.random() < 0.5
         cases.append(case)
     with mp.get_context('fork').Pool(min(common.NPROC, 12)) as pool:
         results = pool.map(_one, cases, chunksize=1)
@@ -168,6 +198,9 @@ def main(tier, seed, replay=None):
         nf += 1
         if nf <= 2:
             where = ','.join(f"{p['action']['kind']}@{p['when']}-call{p['call']}" for p in case['plan'])
+            if case.get('incremental'):
+                where += ' | second, incremental backup' + (' taken within the same second' if case.get('same_second') else '') + ': ' + \
+                         ','.join(f"{p['action']['kind']}@{p['when']}-call{p['call']}" for p in case.get('plan2', case['plan']))
             ck.fail(f'backup with concurrent steps [{where}]: {msg}', {'kind': 'backup-schedule', 'case': case}, 'C15:backup')
     ck.cov['backups_run'] = len(cases)
     ck.sample(cases[3])
